@@ -150,7 +150,11 @@ def waitSpec (c : Case) (o : Json) : Except String (Bool × String) := do
         if prev == some 4 && condMet c.cond r ob && evs.map (·.2) != [1] then
           -- (a Failed that was due to a replaced UID stays failed while the UID is still replaced: condMet is false then)
           return (false, s!"{id}: failed then condition met, but not reported reconciled")
-        if prev == some 1 && !(condMet c.cond r ob) && !(uidChanged r ob) && evs.map (·.2) != [0] then
+        -- (an apply phase does not look at the UID of an object it has already reported reconciled: a report that is Current at a
+        -- fresh generation under another UID leaves it reconciled — interpretation decision, DESIGN §7; any report that fails the
+        -- status / generation test makes it pending again, whatever its UID)
+        if prev == some 1 && !(condMet c.cond r ob) && !(c.cond == .allCurrent && uidChanged r ob && condMet c.cond r { ob with uid := "" }) &&
+           evs.map (·.2) != [0] then
           return (false, s!"{id}: regressed but not reported pending")
         if prev == some 0 && condMet c.cond r ob && evs.map (·.2) != [1] then
           return (false, s!"{id}: pending and condition met, but not reported reconciled")
